@@ -625,10 +625,13 @@ def c09(prop, tier, seed, wd, explore, limit, kinds, we):
     cases = []
     ns = 30 if tier == "quick" else 500
     for i, (iname, S) in enumerate(block_inputs(prop, seed, tier)):
+        # (the number of schedules per process shrinks with the input size: the CPU limit must only ever fire on a spin)
+        nsp = max(3, min(ns, 200000 // len(S)))
+        nst = max(3, min(max(4, ns // 8), 40000 // len(S)))
         for rep in range(2):
-            cases.append(PoolCase("blocks", "plain", gen.splitmix(seed, 20 + rep, i), ["--schedules", str(ns), "--delay-us", str([150, 400][rep])] + (["--parallel-first"] if rep == 1 else []), iname, S))
+            cases.append(PoolCase("blocks", "plain", gen.splitmix(seed, 20 + rep, i), ["--schedules", str(nsp), "--delay-us", str([150, 400][rep])] + (["--parallel-first"] if rep == 1 else []), iname, S))
         if i % 2 == 0 or tier == "thorough":
-            cases.append(PoolCase("blocks", "tsan", gen.splitmix(seed, 23, i), ["--schedules", str(max(4, ns // 8)), "--delay-us", "100"], iname, S))
+            cases.append(PoolCase("blocks", "tsan", gen.splitmix(seed, 23, i), ["--schedules", str(nst), "--delay-us", "100"], iname, S))
     # tens of thousands of tiny blocks of unequal sizes: blocks complete while the producer is still cutting and growing its tables
     r = P.rng_for(seed, prop, 6)
     many = [("short%d" % k, gen.norm(set(bytes(r.choice(b"abcdefgh") for _ in range(r.randint(1, 7))) for _ in range(nn)))) for k, nn in enumerate([26000, 40000] if tier == "quick" else [26000, 40000, 90000, 150000])]
@@ -652,8 +655,9 @@ def c11(prop, tier, seed, wd, explore, limit, kinds, we):
     for i, (iname, S) in enumerate(block_inputs(prop, seed, tier)):
         if len(S) < 4:
             continue
+        nst = max(3, min(ns, 40000 // len(S)))   # (the CPU limit must only ever fire on a spin)
         for rep in range(2 if tier == "quick" else 4):   # race reports vary run to run: repeat
-            cases.append(PoolCase("blocks", "tsan", gen.splitmix(seed, 30 + rep, i), ["--schedules", str(ns), "--delay-us", str([0, 120, 300, 50][rep])] + (["--parallel-first"] if rep % 2 == 0 else []), iname, S))
+            cases.append(PoolCase("blocks", "tsan", gen.splitmix(seed, 30 + rep, i), ["--schedules", str(nst), "--delay-us", str([0, 120, 300, 50][rep])] + (["--parallel-first"] if rep % 2 == 0 else []), iname, S))
     # few big blocks (>= 16384 strings each) built at the same time: code paths that only large dictionaries take
     r = P.rng_for(seed, prop, 8)
     for v in range(1 if tier == "quick" else 4):
